@@ -11,6 +11,11 @@ Definition odds {A} (l : list A) : list A := match l with [] => [] | _ :: t => e
 Fixpoint brev {A} (l : nat) (x : list A) : list A :=
   match l with O => x | S l' => brev l' (evens x) ++ brev l' (odds x) end.
 
+Lemma nth_map_lt {A B} (f : A -> B) l d d' i : i < length l -> nth i (map f l) d' = f (nth i l d).
+Proof.
+  intros H. rewrite (nth_indep _ d' (f d)) by (rewrite map_length; exact H). apply map_nth.
+Qed.
+
 Lemma evens_cons2 {A} (a b : A) r : evens (a :: b :: r) = a :: evens r. Proof. reflexivity. Qed.
 Lemma odds_cons2 {A} (a b : A) r : odds (a :: b :: r) = b :: odds r.
 Proof. destruct r; reflexivity. Qed.
